@@ -64,7 +64,8 @@ def relevant_checks(nid, claimed):
 def main():
     args = sys.argv[1:]
     rel = '--relevant' in args
-    args = [a for a in args if a != '--relevant']
+    own = '--own' in args
+    args = [a for a in args if a not in ('--relevant', '--own')]
     jobs = 3
     checks = None
     if '--jobs' in args:
@@ -77,7 +78,7 @@ def main():
     todo = [c for c in (checks or claimed) if c in claimed]
     bad = 0
     with cf.ThreadPoolExecutor(jobs) as ex:
-        for nid, out in ex.map(lambda n: run_one(n, relevant_checks(n, todo) if rel else todo), ids):
+        for nid, out in ex.map(lambda n: run_one(n, [c for c in todo if c == n.split('_')[0]] if own else (relevant_checks(n, todo) if rel else todo)), ids):
             mp = f"{V}/neutral/{nid}/meta.json"
             meta = json.load(open(mp))
             meta.setdefault('checks', {}).update(out)
